@@ -1,0 +1,11 @@
+//go:build verif
+
+package primitives
+
+// Contracts for the goverif VC generator (/verif). Comment-only file: it adds no code.
+
+// NewPrimitive allocates a data type holding exactly the given primitive kind and value.
+//@ func NewPrimitive [C06]
+//@   fresh
+//@   modifies nothing
+//@   ensures result != nil && fresh(result) && result.v != nil && fresh(result.v) && result.v.Primitive == primitive && result.v.Value == value
